@@ -1614,29 +1614,12 @@ theorem TSeq_run : ∀ (evs : List TEv) (s s' : TSt), TInv s → TSeq s → TSeq
     · exact nomatch h
 
 
-/-- decidable form of `QuietStep` -/
-def quietStepB (s : St) (m : Mig) : Bool :=
-  match applyMig slotOf s.sv m with
-  | some sv' => s.redir.all (fun r => decide (answer slotOf sv' r.origin r.cmd.key false ≠ .exec))
-  | none => true
-
 theorem quietStep_of_B {s : St} {m : Mig} (h : quietStepB slotOf s m = true) : QuietStep slotOf s m := by
   intro sv' hsv r hr
   unfold quietStepB at h
   rw [hsv] at h
   simp only [List.all_eq_true, decide_eq_true_eq] at h
   exact h r hr
-
-/-- decidable form of `QuietRun` (the run is a function of the event list) -/
-def quietRunB : St → List Ev → Bool
-  | _, [] => true
-  | s, e :: es =>
-    (match e with
-     | .mig m => quietStepB slotOf s m
-     | _ => true) &&
-    (match step slotOf s e with
-     | .ok s' => quietRunB s' es
-     | .error _ => true)
 
 theorem quietRun_of_B : ∀ (evs : List Ev) (s : St), quietRunB slotOf s evs = true → QuietRun slotOf s evs := by
   intro evs
